@@ -23,6 +23,8 @@ pub struct DeleteRoller(());
 
 impl Roll for DeleteRoller {
     fn roll(&self, file: &Path) -> anyhow::Result<()> {
+        #[cfg(feature = "verif_hooks")]
+        crate::verif::fs_step("delete.remove", file, None)?;
         fs::remove_file(file).map_err(Into::into)
     }
 }
